@@ -124,7 +124,8 @@ def ss_leaves():
 def small_scope_all():
     """list of (label, src).  3 prefixes x 3 loop kinds x |leaves|^2 bodies, + for every body of the counted loop one trailing leaf sample"""
     leaves = ss_leaves()
-    prefixes = ["", "b = 5;", "a = 5; b = 5;", "b = 5; c = 5; while (a > 0) { b = c + c; }"]
+    prefixes = ["", "b = 5;", "a = 5; b = 5;", "b = 5; c = 5; while (a > 0) { b = c + c; }",
+                "for (i = 0; i < n; i++) { a = a + c; }", "while (n > 0) { b = a + c; }"]
     out = []
     for pi, pre in enumerate(prefixes):
         for kind in ("for", "while", "if"):
@@ -165,7 +166,14 @@ def _ss_worker(args):
 def small_scope_check(ctx, cid, n_quick=400):
     """run the real tool on the small-scope programs (all of them in the thorough tier, a seeded sample otherwise) against the calculus"""
     allp = small_scope_all()
-    progs = allp if ctx.thorough else ctx.rng.sample(allp, min(n_quick, len(allp)))
+    if ctx.thorough:
+        progs = allp
+    else:
+        # two-loop programs (prefixes 3..) are where failures recorded by one loop meet the flows of another: 2/3 of the sample
+        two = [p for p in allp if int(p[0].split(":")[1]) >= 3]
+        one = [p for p in allp if int(p[0].split(":")[1]) < 3]
+        k2 = min(len(two), (2 * n_quick) // 3)
+        progs = ctx.rng.sample(two, k2) + ctx.rng.sample(one, min(len(one), n_quick - k2))
     res = vlib.pool_map(_ss_worker, [(l, s, cid) for l, s in progs], chunksize=16)
     failing, outcome = [], {}
     for f, o in res:
